@@ -56,6 +56,12 @@ GROUPS = {
     'I': [('bid128_frexp.rs', 'bid128_frexp')],
     # N: next up / down (complete theorems); NP: next after / toward (PARTIAL theorems: NaN operands only, names end in _partial)
     'N': [('bid128_next.rs', 'bid128_nextup'), ('bid128_next.rs', 'bid128_nextdown')],
+    # R: round to integral, fixed mode (complete theorems; Impl/ImplRint.v, Impl/ImplRintProofs.v).
+    'R': [('bid128_round_integral.rs', n) for n in (
+        'bid128_round_integral_zero', 'bid128_round_integral_negative', 'bid128_round_integral_positive',
+        'bid128_round_integral_nearest_even', 'bid128_round_integral_nearest_away')],
+    # RP: round to integral, mode as an argument (PARTIAL theorems: special / zero / exponent >= 0 / exponent <= -35 operands)
+    'RP': [('bid128_round_integral.rs', 'bid128_round_integral_exact'), ('bid128_nearbyint.rs', 'bid128_nearbyint')],
     'NP': [('bid128_next.rs', 'bid128_nextafter'), ('bid128_nexttoward.rs', 'bid128_nexttoward')],
     # J: to-integer conversions with complete value/status theorems (Impl/ImplRound.v holds the shared facts; the rninta block is
     # generated from the rnint block by gen_toint_proofs.py)
